@@ -32,3 +32,7 @@ def _noise_targets():
         out.append(Target("_frame_helper.noise.APINoiseFrameHelper." + name, "contract", run, functions=["aioesphomeapi._frame_helper.noise.APINoiseFrameHelper." + name],
                           bounded=native_noise.bounded_noise_close))
     return out
+
+
+# built-in mutants of the real source text for the thorough tier's self-check (each must be refuted by a named obligation)
+MUTANTS = [('dispatch-after-close', 'aioesphomeapi/connection.py', '        if self.connection_state is CONNECTION_STATE_CLOSED:\n            # Frames that were buffered', '        if False:\n            # Frames that were buffered')]
